@@ -5,7 +5,8 @@
    members/devices/sent-secrets/admins already hold [prev] (they are not reset between calls).
    Maps are Coq functions, so equalities of states rest on functional extensionality. *)
 From Coq Require Import List NArith Bool.
-From Wesh Require Import Model.MetaLog Proofs.MetaLog.
+From Coq Require Import String.
+From Wesh Require Import Model.MetaLog Proofs.MetaLog Gen.Index GenFacts.IndexFacts.
 Import ListNotations.
 Open Scope N_scope.
 
@@ -51,6 +52,19 @@ Theorem C04_arrival_order_scan_refuted :
   /\ index 0 [wit_a; wit_b] = index 0 [wit_b; wit_a].
 Proof. exact arrival_order_mattered. Qed.
 
+(* the shape the model assumes is the shape of the CURRENT source (generated facts): the index takes
+   the entries in the total order (clock time, clock id, hash) and scans them newest first; it resets
+   exactly what [reset] resets; the first-wins handlers are the ones the model has *)
+Theorem C04_source_shape :
+  (index_entries_source = "sortedLogEntries(log)" /\
+   sorted_entries_order = "sorting.SortByEntryHash, entries, false" /\
+   index_scans_newest_first = true)%string /\
+  (index_resets = ["contacts"; "contactsFromGroupPK"; "groups"; "contactRequestMetadata"; "contactRequestEnabled";
+                   "contactRequestSeed"; "verifiedCredentials"; "handledEvents"])%string /\
+  index_handlers = first_wins_expected.
+Proof. exact (conj index_reads_the_log_order (conj index_resets_as_modelled handlers_first_wins)). Qed.
+
+Print Assumptions C04_source_shape.
 Print Assumptions C04_state_is_function_of_entry_set.
 Print Assumptions C04_arrival_independent.
 Print Assumptions C04_reindex_idempotent.
